@@ -32,8 +32,7 @@ def resolve_index(key):
     return key_subst(key, f)
 
 
-def env_at(fn, ctx):
-    cfg = fn.cfg
+def _transfer_fns(fn, ctx):
     mutnodes = {}
     for d, ns in ctx.mut.items():
         for j in ns:
@@ -125,12 +124,34 @@ def env_at(fn, ctx):
             changed = True
         return freeze(env) if (changed or tgt is not None) else st
 
+    return transfer, freeze
+
+
+def env_at(fn, ctx):
+    cfg = fn.cfg
+    transfer, freeze = _transfer_fns(fn, ctx)
+
     def meet(a, b):
         da, db_ = dict(a), dict(b)
         return freeze({k: v for k, v in da.items() if db_.get(k) == v})
 
     IN, at = cfg.forward(freeze({}), transfer, None, meet)
     return {p: dict(st) for p, st in at.items()}
+
+
+def env_along(fn, ctx, path):
+    """the same environment, but along ONE block path (no joins): at[(block, idx)] = values before that element.
+    For rules that decide a function path by path (each path with its own branch facts)."""
+    transfer, freeze = _transfer_fns(fn, ctx)
+    st = freeze({})
+    at = {}
+    for b in path:
+        blk = fn.cfg.blocks[b]
+        for i, e in enumerate(blk.elems):
+            at[(b, i)] = dict(st)
+            st = transfer(st, b, i, e)
+        at[(b, len(blk.elems))] = dict(st)
+    return at
 
 
 def gated_value(fn, ctx, d, at_node):
